@@ -141,6 +141,16 @@ class walk_tree(object):
                             # Is the matched segment the beginning of a loop?
                             if node.is_loop() \
                                     and self._is_loop_match(node, seg_data, errh, seg_count, cur_line, ls_id):
+                                # The loop repeats: required segments that never
+                                # appeared in the instance being closed are missing
+                                for sibling in node.childIterator():
+                                    if orig_node is child \
+                                            and sibling is not child and sibling.is_segment() and sibling.usage == 'R' \
+                                            and self.counter.get_count(sibling.x12path) < 1:
+                                        fake_seg = pyx12.segment.Segment('%s' % (sibling.id), '~', '*', ':')
+                                        err_str = 'Mandatory segment "%s" (%s) missing' % (sibling.name, sibling.id)
+                                        self.mandatory_segs_missing.append(
+                                            (sibling, fake_seg, '3', err_str, seg_count, cur_line, ls_id))
                                 (
                                     node1, push_node_list) = self._goto_seg_match(node, seg_data,
                                                                                   errh, seg_count, cur_line, ls_id)
